@@ -133,6 +133,82 @@ func facts(f *hc.Facts) {
 			}
 			return true
 		})
+		// structured: the cases of tryDial's select and the order of the racing machinery in connect,
+		// interpreted by the model (TdModel/Model/C42.lean)
+		var selCases, conOps []string
+		ast.Inspect(fd.Body, func(n ast.Node) bool {
+			as, ok := n.(*ast.AssignStmt)
+			if !ok || len(as.Lhs) != 1 || f.Src(as.Lhs[0]) != "tryDial" {
+				return true
+			}
+			fl, ok := as.Rhs[0].(*ast.FuncLit)
+			if !ok {
+				return true
+			}
+			ast.Inspect(fl.Body, func(m ast.Node) bool {
+				sel, ok := m.(*ast.SelectStmt)
+				if !ok {
+					return true
+				}
+				for _, cc := range sel.Body.List {
+					c := cc.(*ast.CommClause)
+					body := ""
+					for _, st := range c.Body {
+						body += f.Src(st) + ";"
+					}
+					switch cm := c.Comm.(type) {
+					case *ast.SendStmt:
+						if f.Src(cm.Chan) == "results" {
+							selCases = append(selCases, "1")
+						} else {
+							selCases = append(selCases, "0")
+						}
+					case *ast.ExprStmt:
+						x := f.Src(cm.X)
+						closes := strings.Contains(body, "if conn != nil") && strings.Contains(body, "conn.Close()")
+						switch {
+						case x == "<-"+ownCtx+".Done()" && closes:
+							selCases = append(selCases, "2")
+						case x == "<-"+ownCtx+".Done()":
+							selCases = append(selCases, "4")
+						case strings.HasSuffix(x, ".Done()"):
+							selCases = append(selCases, "3")
+						default:
+							selCases = append(selCases, "0")
+						}
+					default:
+						selCases = append(selCases, "0")
+					}
+				}
+				return false
+			})
+			return false
+		})
+		for _, st := range fd.Body.List {
+			x := f.Src(st)
+			switch {
+			case x == "results := make(chan dialResult)":
+				conOps = append(conOps, "10")
+			case strings.HasPrefix(x, "results := make(chan dialResult,"):
+				conOps = append(conOps, "11")
+			case x == "dialCtx, dialCancel := context.WithCancel(ctx)":
+				conOps = append(conOps, "20")
+			case x == "defer dialCancel()":
+				conOps = append(conOps, "21")
+			case strings.HasPrefix(x, "for _, dcOption := range dcOptions") && strings.Contains(x, "go tryDial(dialCtx, dcOption)"):
+				conOps = append(conOps, "22")
+			case strings.HasPrefix(x, "for _, dcOption := range dcOptions") && strings.Contains(x, "go tryDial("):
+				conOps = append(conOps, "23")
+			case x == "remain := len(dcOptions)":
+				conOps = append(conOps, "30")
+			case strings.HasPrefix(x, "remain :="):
+				conOps = append(conOps, "31")
+			case strings.HasPrefix(x, "for {") && strings.Contains(x, "result := <-results"):
+				conOps = append(conOps, "40")
+			}
+		}
+		f.Raw("def tryDialSelect : List Nat := [" + strings.Join(selCases, ", ") + "] -- tryDial select cases: 1 results <- … 2 <-(own ctx).Done() closing a non-nil conn 3 Done of another context 4 own Done without close 0 other")
+		f.Raw("def connectOps : List Nat := [" + strings.Join(conOps, ", ") + "] -- connect top level: 10 unbuffered results 11 buffered results 20 dialCtx,dialCancel := WithCancel(ctx) 21 defer dialCancel() 22 go tryDial(dialCtx,…) in the loop 23 go tryDial(other ctx) 30 remain := len(dcOptions) 31 other remain 40 collector loop")
 		f.Bool("resultsUnbuffered", unbuf, "plain.connect: results := make(chan dialResult) has no capacity")
 		f.Bool("abandonCloses", abandon && ownCtx != "" && watches == ownCtx && dialsWith == ownCtx,
 			fmt.Sprintf("tryDial: the select has exactly two branches; the Done branch watches the closure's own context parameter (param %q, dials with %q, watches %q) and closes a non-nil conn", ownCtx, dialsWith, watches))
